@@ -246,8 +246,18 @@ const (
 )
 
 type c26Case struct {
-	Base int   `json:"base"` // 0: head = genesis (empty recent history); 1: head = one valid block on genesis
-	Seq  []int `json:"seq"`
+	Base int      `json:"base"` // 0: head = genesis (empty recent history); 1: head = one valid block on genesis
+	Seq  []int    `json:"seq"`
+	Long *c26Long `json:"long,omitempty"` // long-history pass
+}
+
+// c26Long: a history that fills the fuzz-mode retention window (24 accepted imports),
+// then NRej rejected blocks of one kind on the head, then a look at / a fork from one
+// of the oldest retained blocks.
+type c26Long struct {
+	Kind int `json:"kind"` // event code of the rejected block(s)
+	NRej int `json:"nrej"` // 0..2
+	Fork int `json:"fork"` // 0,1,2: position (oldest first) of the retained block that is queried and forked from
 }
 
 // what the harness knows about a block of the chain (only from the node's answers)
@@ -660,6 +670,161 @@ func c26Check(r *vlib.Run, g *c26Genesis, c c26Case) bool {
 	return true
 }
 
+// ---------- long-history pass ----------
+
+type c26LongOut struct {
+	built      bool
+	rejected   []string // outcome of each rejected block
+	getState   string   // GetState(fork block): digest/root or error
+	fork       c26Step  // import of a new valid child of the fork block
+	headAfter  string
+	imports    uint64
+}
+
+var c26InvalidKinds = []int{c26EvBadSlot, c26EvBadRoot, c26EvBadXHash, c26EvBadSeal, c26EvWrongAuthor, c26EvBadPreOrder, c26EvBadTicket, c26EvPreUnneeded}
+
+// c26BuildInvalid builds one invalid child of the head (same constructions as c26RunA).
+func c26BuildInvalid(g *c26Genesis, head *c26Node, ev int) (types.Block, types.HeaderHash, error) {
+	switch ev {
+	case c26EvBadSlot:
+		return g.build(head.hash, head.root, head.slot, nil, c26Valid)
+	case c26EvBadRoot:
+		return g.build(head.hash, head.root, head.slot+1, nil, c26BadStateRoot)
+	case c26EvBadXHash:
+		return g.build(head.hash, head.root, head.slot+1, g.blobs[head.nPre], c26BadExtrinsicHash)
+	case c26EvBadSeal:
+		return g.build(head.hash, head.root, head.slot+1, nil, c26BadSeal)
+	case c26EvWrongAuthor:
+		return g.build(head.hash, head.root, head.slot+1, nil, c26WrongAuthor)
+	case c26EvBadPreOrder:
+		return g.buildTwoPreimages(head.hash, head.root, head.slot+1, head.nPre)
+	case c26EvBadTicket:
+		var t types.TicketEnvelope
+		for i := range t.Signature {
+			t.Signature[i] = byte(0xA0 + i%7)
+		}
+		return g.buildExt(head.hash, head.root, head.slot+1, types.Extrinsic{Tickets: types.TicketsExtrinsic{t}}, c26Valid)
+	case c26EvPreUnneeded:
+		return g.build(head.hash, head.root, head.slot+1, []byte{0xEE, 0x01, 0x02, byte(head.slot)}, c26Valid)
+	}
+	return types.Block{}, types.HeaderHash{}, fmt.Errorf("not an invalid kind: %d", ev)
+}
+
+// c26RunLong: fresh node; 24 accepted imports, all in epoch 0 (A = child of genesis at
+// slot 1, the oldest retained block; chain C2..C11 at slots 2..11; 8 more children of C2;
+// 5 more children of C3); then the rejected blocks; then GetState of the fork block and
+// the import of a new valid child of it.
+func c26RunLong(g *c26Genesis, l c26Long) (out c26LongOut, err error) {
+	rn, _, err := c26NewNode(g, 0)
+	if err != nil {
+		return out, err
+	}
+	must := func(parent *c26Node, slot types.TimeSlot, blob []byte) (*c26Node, error) {
+		b, hh, err := g.build(parent.hash, parent.root, slot, blob, c26Valid)
+		if err != nil {
+			return nil, err
+		}
+		nPre := parent.nPre
+		if blob != nil {
+			nPre++
+		}
+		st := rn.importBlock(c26EvChildEmpty, b, hh, nPre)
+		if !st.accepted {
+			return nil, fmt.Errorf("history block (parent slot %d, slot %d) rejected: %s", parent.slot, slot, st.err)
+		}
+		return rn.nodes[hh], nil
+	}
+	chain := []*c26Node{rn.head}
+	for slot := types.TimeSlot(1); slot <= 11; slot++ {
+		n, err := must(chain[len(chain)-1], slot, nil)
+		if err != nil {
+			return out, err
+		}
+		chain = append(chain, n)
+	}
+	a, c2, c3 := chain[1], chain[2], chain[3]
+	for slot := types.TimeSlot(4); slot <= 11; slot++ { // 8 more children of C2 (C3 is its child at slot 3)
+		if _, err := must(c2, slot, nil); err != nil {
+			return out, err
+		}
+	}
+	for slot := types.TimeSlot(5); slot <= 9; slot++ { // 5 more children of C3 (C4 is its child at slot 4)
+		if _, err := must(c3, slot, nil); err != nil {
+			return out, err
+		}
+	}
+	out.built = true
+	for i := 0; i < l.NRej; i++ {
+		b, hh, err := c26BuildInvalid(g, rn.head, l.Kind)
+		if err != nil {
+			return out, err
+		}
+		st := rn.importBlock(l.Kind, b, hh, 0)
+		out.rejected = append(out.rejected, c26Outcome(st))
+		if st.accepted {
+			return out, fmt.Errorf("invalid block of kind %s accepted in the long-history pass", c26EventNames[l.Kind])
+		}
+	}
+	forkFrom := []*c26Node{a, c2, c3}[l.Fork]
+	if kvs, gerr := rn.svc.GetState(forkFrom.hash); gerr != nil {
+		out.getState = "error: " + c26ErrClass(gerr.Error())
+	} else {
+		d, root := c26Digest(kvs)
+		out.getState = fmt.Sprintf("%s root=%x matches-import-root=%v", d, root[:8], root == forkFrom.root)
+	}
+	// a new valid child of the fork block: for A at slot 3 (C2 is its child at slot 2),
+	// for C2 / C3 a child carrying a preimage at slot 3 / 4 (differs from C3 / C4)
+	var b types.Block
+	var hh types.HeaderHash
+	if l.Fork == 0 {
+		b, hh, err = g.build(forkFrom.hash, forkFrom.root, 3, nil, c26Valid)
+	} else {
+		b, hh, err = g.build(forkFrom.hash, forkFrom.root, forkFrom.slot+1, g.blobs[0], c26Valid)
+	}
+	if err != nil {
+		return out, err
+	}
+	out.fork = rn.importBlock(c26EvSibling, b, hh, 0)
+	out.headAfter = out.fork.headDigest
+	out.imports = rn.imports
+	return out, nil
+}
+
+// c26CheckLong: the node that saw NRej rejected blocks must answer the GetState and the
+// fork import exactly like a node that never saw them (the same history, NRej = 0).
+func c26CheckLong(r *vlib.Run, g *c26Genesis, c c26Case) {
+	l := *c.Long
+	var got, clean c26LongOut
+	var err1, err2 error
+	panicked, msg, site := vlib.Guard(func() {
+		got, err1 = c26RunLong(g, l)
+		clean, err2 = c26RunLong(g, c26Long{Kind: l.Kind, NRej: 0, Fork: l.Fork})
+	})
+	name := fmt.Sprintf("[long history: 24 accepted imports, then %d x %s on the head, then fork from retained position %d]", l.NRej, c26EventNames[l.Kind], l.Fork)
+	if panicked {
+		r.Violation(site, "go-panic", "long-history", name+": "+msg, c)
+		return
+	}
+	if err1 != nil || err2 != nil {
+		r.T.Fatalf("harness: long-history pass: %v / %v", err1, err2)
+	}
+	r.TransitionN(got.imports + clean.imports)
+	r.Eval()
+	r.Class(fmt.Sprintf("long-history nrej=%d fork-accepted=%v", l.NRej, got.fork.accepted))
+	key := "long-history" // one signature per kind of divergence; the case carries kind / count / fork position
+	if got.getState != clean.getState {
+		r.Violation("fuzz.GetState", "retained-state-differs-from-clean-node", key,
+			fmt.Sprintf("%s: GetState(fork block) = %s; on a node that never saw the rejected blocks: %s", name, got.getState, clean.getState), c)
+	}
+	if got.fork.accepted != clean.fork.accepted {
+		r.Violation("fuzz.ImportBlock", "accept-reject-differs-from-clean-node", key,
+			fmt.Sprintf("%s: new valid child of the fork block %s; on a node that never saw the rejected blocks: %s", name, c26Outcome(got.fork), c26Outcome(clean.fork)), c)
+	} else if got.fork.root != clean.fork.root || got.headAfter != clean.headAfter {
+		r.Violation("fuzz.ImportBlock", "state-differs-from-clean-node", key,
+			fmt.Sprintf("%s: fork child %s / %s; clean node %s / %s", name, c26Outcome(got.fork), got.headAfter, c26Outcome(clean.fork), clean.headAfter), c)
+	}
+}
+
 func TestVerif_C26(t *testing.T) {
 	r := vlib.Start(t, "C26")
 	defer r.Finish()
@@ -699,7 +864,11 @@ func TestVerif_C26(t *testing.T) {
 
 	var rc c26Case
 	if r.IsReplay(&rc) {
-		c26Check(r, g, rc)
+		if rc.Long != nil {
+			c26CheckLong(r, g, rc)
+		} else {
+			c26Check(r, g, rc)
+		}
 		return
 	}
 
@@ -729,6 +898,24 @@ func TestVerif_C26(t *testing.T) {
 				}
 			}
 		})
+	}
+	// long-history pass (retention window of the fuzz target, JAM_FUZZ set)
+	nRejMax := 2
+	for _, kind := range c26InvalidKinds {
+		for nrej := 0; nrej <= nRejMax; nrej++ {
+			if nrej == 0 && kind != c26InvalidKinds[0] {
+				continue // without rejected blocks the kind does not matter
+			}
+			for fork := 0; fork < 3; fork++ {
+				idx++
+				if !r.Mine(idx) || r.Expired() {
+					continue
+				}
+				r.Space(1)
+				c26CheckLong(r, g, c26Case{Long: &c26Long{Kind: kind, NRej: nrej, Fork: fork}})
+				r.Trace()
+			}
+		}
 	}
 	r.Extra("depth", depth)
 	r.Extra("events", nEv)
